@@ -409,6 +409,9 @@ def run_raw(rng):
     style_opt = {'hunk-header': '--hunk-header-style', 'minus': '--minus-style', 'plus': '--plus-style',
                  'zero': '--zero-style', 'file': '--file-style', 'commit': '--commit-style'}[which]
     opts[style_opt] = 'raw'
+    if rng.random() < 0.3:
+        # the switch for the inspection of moved-line colours has no bearing on raw styles
+        opts['--inspect-raw-lines'] = 'false'
     if which == 'hunk-header':
         opts['--hunk-header-decoration-style'] = 'none'
     if which == 'file':
